@@ -60,6 +60,16 @@ mut("deepest-anchor-only", T, "                longest_candidate_prefix = candid
 mut("rule-install-forgets-report", T, "                    _, add_report = self.__add_page(lru)\n                    report += add_report", "                    _, add_report = self.__add_page(lru)", ["C06", "C12"])
 mut("potential-ignores-default", T, "        # If there is neither a webentity prefix nor a rules prefix, look for the default rule\n        longest_candidate_prefix = self.__apply_webentity_default_creation_rule(lru)",
     "        # If there is neither a webentity prefix nor a rules prefix, look for the default rule\n        longest_candidate_prefix = None", ["C06"])
+mut("open-truncates", T, '            flags = "wb+" if create else "rb+"', '            flags = "wb+" if create else "wb+"', ["C11"])
+# (equivalent mutant, kept for the record: RAM patterns of anchors that are no longer flagged are never consulted)
+False and mut("clear-keeps-rules-ram", T, "        if webentity_creation_rules is not None:\n            self.webentity_creation_rules = {}\n\n            for prefix, pattern in webentity_creation_rules.items():\n                self.add_webentity_creation_rule(prefix, pattern, True)",
+    "        if webentity_creation_rules is not None:\n            for prefix, pattern in webentity_creation_rules.items():\n                self.add_webentity_creation_rule(prefix, pattern, True)", ["C11", "C06"])
+mut("clear-keeps-header-id", T, "        # LRU Trie re-initialization\n        self.lru_trie = LRUTrie(self.lru_trie_storage, encoding=self.encoding)\n\n        # Link Store re-initialization",
+    "        # LRU Trie re-initialization\n        last = self.lru_trie.header.last_webentity_id()\n        self.lru_trie = LRUTrie(self.lru_trie_storage, encoding=self.encoding)\n        self.lru_trie.header.set_last_webentity_id(last)\n\n        # Link Store re-initialization", ["C11"])
+FS = "traph/storage/file.py"
+mut("revert-F5", ND, "                    if raw is None:\n                        break\n", "", ["C18"])
+mut("corruption-check-off", FS, "        if file_length % self.block_size:\n            return True", "        if file_length % self.block_size:\n            return False", ["C18"])
+mut("missing-store-tolerated", T, "            if lru_trie_file_exists and not link_store_file_exists:\n                raise TraphException(", "            if False:\n                raise TraphException(", ["C18"])
 
 def main():
     args = [a for a in sys.argv[1:] if not a.startswith("--")]
